@@ -644,6 +644,24 @@ func init() {
 		e.FS.Outage = false
 		return "ok", false
 	}
+	// another litestream operation of the same instance runs to completion while
+	// the interrupted one has not yet taken the executor (only meaningful at
+	// sites that lie before the acquisition of a lock: db:lock_exec,
+	// replica:lock_sync, snapshot:position_captured, snapshot:before_write)
+	harnessSteps["ls_nested_sync"] = func(e *Env, st *Step) string {
+		if e.LS == nil {
+			return "noop"
+		}
+		ctx := context.Background()
+		e.Res.Probes["nested_ls_ops"]++
+		if err := e.LS.DB.Sync(ctx); err != nil {
+			return errStr(err)
+		}
+		if st.N > 0 {
+			return errStr(e.LS.DB.Replica.Sync(ctx))
+		}
+		return "ok"
+	}
 	harnessSteps["cancel_ctx"] = func(e *Env, st *Step) string {
 		if e.opCancel == nil {
 			return "noop"
